@@ -196,6 +196,54 @@ func checkC16(c *Ctx) {
 	c.limitSweep("query", batch)
 	c.limitSweep("query", denseDocs(c.R, c.Pick(1500, 15000)))
 	c.builtinFlagSweep(ss)
+	// limit 0 means unlimited however long the document is, on every entry point; and a single source through
+	// the multi-source entry point obeys the limit like ParseSchemaWithLimit does
+	{
+		var big strings.Builder
+		big.WriteString("{")
+		for i := 0; i < 20000; i++ {
+			big.WriteString(" f" + strconv.Itoa(i))
+		}
+		big.WriteString(" }")
+		var bigS strings.Builder
+		bigS.WriteString("enum E {")
+		for i := 0; i < 20000; i++ {
+			bigS.WriteString(" V" + strconv.Itoa(i))
+		}
+		bigS.WriteString(" }")
+		hq, hs := impl.HexW([]byte(big.String())), impl.HexW([]byte(bigS.String()))
+		reqs := []string{"pq -1 " + hq, "pq 0 " + hq, "pq 20002 " + hq, "ps -1 " + hs, "ps 0 " + hs, "ps 20004 " + hs, "pss 0 " + hs, "pss 20004 " + hs}
+		out := c.Worker.Map(reqs)
+		for i := range reqs {
+			base := out[0]
+			if i >= 3 {
+				base = out[3]
+			}
+			if out[i] != base {
+				c.Report("spec", "limit-rejects-or-changes-document-within-limit", fmt.Sprintf("a 20 000-token document: %s gives %s, the unlimited parse %s", clip(reqs[i], 20), clip(out[i], 200), clip(base, 80)), map[string]any{"op": "pq", "request": clip(reqs[i], 200)})
+			}
+		}
+		var reqs2, want []string
+		for _, src := range ss {
+			n := TokenCount([]byte(src))
+			if n < 2 || len(src) > 4000 {
+				continue
+			}
+			h := impl.HexW([]byte(src))
+			for _, l := range []int{1, n - 1, n, n + 3} {
+				reqs2 = append(reqs2, "pss "+strconv.Itoa(l)+" "+h)
+				want = append(want, "ps "+strconv.Itoa(l)+" "+h)
+			}
+		}
+		o1, o2 := c.Worker.Map(reqs2), c.Worker.Map(want)
+		for i := range reqs2 {
+			a, b := o1[i], o2[i]
+			if strings.HasPrefix(a, "E,0,0,") != strings.HasPrefix(b, "E,0,0,") || strings.HasPrefix(a, "(") != strings.HasPrefix(b, "(") {
+				c.Report("spec", "limit-not-enforced", fmt.Sprintf("one source through ParseSchemasWithLimit: %s gives %s, ParseSchemaWithLimit gives %s", clip(reqs2[i], 30), clip(a, 120), clip(b, 120)), map[string]any{"op": "pss", "request": reqs2[i]})
+			}
+		}
+		c.Ev.Count("single-source-multi-entry-point", len(reqs2))
+	}
 	c.limitHistories("query", qs)
 	c.limitHistories("schema", ss)
 	c.bigInputs(true)
